@@ -68,7 +68,7 @@ def make_cases(ctx, cid, en, flags):
 def gen_cases(ctx):
     g = enumgen.EnumGen(ctx.rng)
     n = ctx.n(60, 1000)
-    out = []
+    out = [make_cases(ctx, "q%d" % j, en, list(fl)) for j, (en, fl) in enumerate(enumgen.load_corpus(PROP))]
     feats = ["kind:" + k for k in enumgen.KIND_NAMES] + ["prefixed", "unprefixed", "accidental-prefix", "multi-file", "placeholder", "carried"]
     for i in range(n):
         f = feats[i] if i < len(feats) else (ctx.rng.choice(feats) if ctx.rng.random() < 0.25 else None)
@@ -96,7 +96,11 @@ def run_cases(ctx, pairs, name="mod"):
             im["compile"] = "ok" if r["compile"] == "ok" else "error"
             obs = dict(r["obs"])
             d = obs.pop("decl", None)
-            if r["compile"] == "ok":
+            if r["compile"] == "ok" and ("panic" in obs or (d is None and not obs)):
+                # a recovered panic, or the oracle process died (e.g. unbounded recursion in String()); when more than a
+                # handful of cases kill the process the batch runner gives up and the rest stay unobserved
+                im["panic"] = obs.get("panic", "no observation: the oracle process kept dying")
+            elif r["compile"] == "ok":
                 want = ",".join("%s=%d" % (n, v) for n, v in main["decl"])
                 if d != want:
                     raise core.InfraError("harness evaluation of the const blocks disagrees with the compiler: %s vs %s" % (want, d))
@@ -141,6 +145,8 @@ def run(ctx, obl):
                 if c["id"] == cid:
                     v.setdefault("detail", c.get("detail"))
                     v.setdefault("sources", c.get("files"))
+                    v.setdefault("enum", c["en"])
+                    v.setdefault("flags", c["flags"])
     res.rule = ("enums of the C04 grammar (generation-successful region; the enum-level failures are reported under C04), one per case, cycling "
                 "through all 2^3 codec flag sets plus `-sql -gorm` and `-json -text -sql -gorm` (gorm.io/gorm is a two-type stub module); the real "
                 "json.Marshal/Unmarshal, encoding.TextMarshaler/TextUnmarshaler, driver.DefaultParameterConverter/driver.Valuer/sql.Scanner and "
@@ -156,18 +162,26 @@ def run(ctx, obl):
 
 
 def replay(ctx, payload):
-    from vlib import sexp
+    """re-run the recorded (enum, flag set) with fresh probes from the recorded seed and print the three line sets"""
     core.lean_build(LEAN_MODULES + [DRIVER])
-    case = payload.get("case")
-    print(case)
-    if payload.get("sources"):
-        for fn, src in payload["sources"].items():
-            print("---- %s\n%s" % (fn, src))
-    model = core.model_run(ctx, [case])
-    cid = sexp.parse(case)[1]
-    m = model.get(cid, {})
-    print("impl (recorded):", payload.get("impl"))
-    print("model:", m.get("model"))
-    print("spec :", m.get("spec"))
-    print("region:", m.get("region"))
-    return 0 if all((payload.get("impl") or {}).get(k) == v for k, v in (m.get("spec") or {}).items()) else 1
+    en = payload.get("enum")
+    if not en:
+        print(payload.get("case") or payload)
+        return 0
+    main, sub = make_cases(ctx, "replay", en, list(payload.get("flags") or []))
+    for fn, src in main["files"].items():
+        print("---- %s\n%s" % (fn, src))
+    cases, impl, model = run_cases(ctx, [(main, sub)])
+    rc = 0
+    for c in cases:
+        m = model[c["id"]]
+        print(c["sexp"])
+        print("cmd   :", c["cmd"], c.get("detail", {}).get("compile", ""))
+        print("region:", m["region"])
+        print("impl  :", impl[c["id"]])
+        print("model :", m["model"])
+        print("spec  :", m["spec"])
+        ref = m["model"] if m["region"].startswith("F_") else m["spec"]      # a finding region is expected to differ from spec
+        if m["region"] != "Out" and any(impl[c["id"]].get(k) != v for k, v in ref.items()):
+            rc = 1
+    return rc
